@@ -362,12 +362,19 @@ func (self *Node) attachToFileParents(fileParents map[Nodable]map[string]syntax.
 	for prenode, boundArgs := range fileParents {
 		for _, fork := range prenode.getNode().forks {
 			if setNode != nil {
+				// Each fork removes arguments from its own set as it finds
+				// them not to contain files, so the set must not be shared
+				// between the forks.
+				forkArgs := make(map[string]syntax.Type, len(boundArgs))
+				for arg, t := range boundArgs {
+					forkArgs[arg] = t
+				}
 				if pNodeFiles := fork.filePostNodes; pNodeFiles == nil {
 					fork.filePostNodes = map[Nodable]map[string]syntax.Type{
-						self: boundArgs,
+						self: forkArgs,
 					}
 				} else {
-					pNodeFiles[self] = boundArgs
+					pNodeFiles[self] = forkArgs
 				}
 			}
 			pArgs := fork.fileArgs
